@@ -2,6 +2,8 @@ package ai
 
 import (
 	"go/types"
+
+	"golang.org/x/tools/go/ssa"
 )
 
 // TypeShape returns the integer shape of a Go type (honouring the int-width override).
@@ -160,3 +162,33 @@ func NormPath(p string) string { return normPath(p) }
 
 // TopOf returns the unconstrained value of a type.
 func TopOf(it *Interp, t types.Type, d Deps) Value { return it.topOf(t, d) }
+
+// MeetInt intersects two abstract integers of the same shape (nil if shapes differ).
+func MeetInt(a, b *Int) *Int {
+	if a.W != b.W || a.Signed != b.Signed {
+		return nil
+	}
+	r := a.clone()
+	r.VID = nextVID()
+	if b.Lo > r.Lo {
+		r.Lo = b.Lo
+	}
+	if b.Hi < r.Hi {
+		r.Hi = b.Hi
+	}
+	if r.Lo > r.Hi {
+		return nil
+	}
+	for i := range r.Bits {
+		if r.Bits[i].K == BTop && b.Bits[i].IsConst() {
+			r.Bits[i] = b.Bits[i]
+		}
+	}
+	if r.LtLen == nil {
+		r.LtLen = b.LtLen
+	}
+	return r.normalize()
+}
+
+// GlobalObject returns (creating on demand) the abstract object of a package-level variable.
+func (it *Interp) GlobalObject(g *ssa.Global) *Object { return it.globalObject(g) }
